@@ -3,7 +3,7 @@
    an [fexpr Q], a weighted space, points x, y, a step sigma, and everything the
    implementation returned for the observables of the property. *)
 From Coq Require Import ZArith QArith Qabs List Bool.
-From Verif Require Import Base.Num Base.Vec Base.Check C08.Model.
+From Verif Require Import Base.Num Base.Vec Base.Check C08.Model C08.Group.
 Import ListNotations.
 
 (* np.sqrt at Q: exact on perfect squares, otherwise truncated at 30 digits *)
@@ -137,5 +137,7 @@ Definition cSep2 := @FSep2 Q.
 (* Functional.__mul__(0): ConstantFunctional(f(0)), evaluated eagerly at construction *)
 Definition cMul0 (w : list Q) (f : fx) : fx :=
   match valueQ f w (map (fun _ => 0) w) with Ok (EFin v) => FConst v | _ => FConst 0 end.
+(* GroupL1Norm(S, 2) / IndicatorGroupL1UnitBall(S, 2) on the power space S = X^d, X with m points *)
+Definition cGroup (d m : nat) (b : bool) : fx := FPair b (group_pair Qsqrt d m).
 Definition cBreg (w : list Q) (f : fx) (p g : list Q) : fx :=
   match @bregman Q _ Qsqrt 0 f w p g with Ok e => e | Err _ => FConst 0 end.
